@@ -25,7 +25,7 @@ ASSUMPTIONS = [
 ]
 PLAN = {
     "quick": {"shards": 8, "shard_timeout": 300, "case_timeout": 30, "tournament": 2500, "lexicase": 2500, "exhaustive": 80, "max_case_timeouts": 3},
-    "thorough": {"shards": 16, "shard_timeout": 3600, "case_timeout": 120, "tournament": 300000, "lexicase": 300000, "exhaustive": 12000, "max_case_timeouts": 10},
+    "thorough": {"shards": 16, "shard_timeout": 3600, "case_timeout": 120, "tournament": 1200000, "lexicase": 1200000, "exhaustive": 40000, "max_case_timeouts": 10},
 }
 THRESHOLDS = {
     "quick": {"tournament_winners": 4000, "lexicase_winners": 3000, "lexicase_later_winners": 1500, "epsilon_winners": 800, "exhaustive_spaces": 40, "exhaustive_runs": 2000, "tournaments_with_ties": 500},
